@@ -34,7 +34,7 @@ ASSUMPTIONS = [
 ]
 REAL = C.REAL + ["real os._exit kills for the cross-validation sample"]
 STUB = C.STUB
-RUN_TIMEOUT = 1500
+RUN_TIMEOUT = 3600
 MINIMISE_BUDGET = {"quick": 90, "thorough": 300}
 
 
@@ -62,7 +62,9 @@ def make_case(seed, i, tier):
         scn["steps"] = scn["long_pre"] + rng.choice([3, 4, 5])
     return {"seed": seed, "scn": scn, "props": [PROP], "pre": pre, "tier": tier,
             "second_p": 0.08 if tier == "quick" else 0.15, "kill_p": 0.05,
-            "all_steps": tier != "quick"}
+            "all_steps": tier != "quick",
+            # the enumerated incarnation copies the directory at every effect: slow on a loaded machine
+            "inc_timeout": 600 if tier == "quick" else 1800}
 
 
 # --------------------------------------------------------------------------------------
@@ -227,7 +229,7 @@ def _restart_from(case, state, N, cum, start_cstep, second=False, depth=0, stats
     import numpy as np
     site = _site(state)
     scn = dict(case["scn"], plan=[{"steps": N}])
-    c2 = dict(case, scn=scn)
+    c2 = dict(case, scn=scn, inc_timeout=240)          # restarts are short; only phase 1 gets the long limit
     viol = []
     pre_install = _mk_install("snapshot", arm_steps={0, 1, 2}) if second else None
     mons = (lambda c, i: _restart_monitors(c, i) + ([StepMonitor(M.C04Monitor())] if False else []))
